@@ -14,6 +14,7 @@ import GherkinVerif.Spec.Grammar
 import GherkinVerif.Spec.PureParse
 import GherkinVerif.Spec.TextLevel
 import Driver.GenAst
+import GherkinVerif.Spec.LayoutChecks
 open GV
 
 namespace Driver
@@ -79,6 +80,18 @@ def handle (op : String) (as : List (List Nat)) : J :=
       outcomeJ o ctx [("builds", .arr (ctx.builds.map fun t => .str (formatToken t))),
                       ("buildLines", .arr (ctx.builds.map fun t => .num t.lineNo)),
                       ("reads", .arr (ctx.reads.map J.num)), ("unexpected", .arr (ctx.unexpected.map J.num))]
+  | "layoutok" =>
+    -- stop | default dialect | src | src' : hypotheses of the whole-document C16 theorems (Spec/LayoutChecks.lean):
+    -- `blank`: the positions k (0 … number of lines) where a whitespace-only line may be inserted after the
+    -- first k lines of src; `indent`: src' is an admissible indentation of src (src' may be empty: not asked)
+    match MState.init D (arg as 1) with
+    | none => .obj [("crash", .str (lit "no such default dialect"))]
+    | some μ =>
+      let src := arg as 2
+      let src' := arg as 3
+      let n := (splitLines src).length
+      .obj [("blank", .arr (((List.range (n + 1)).filter fun k => Spec.blankLineOkB D T (flag as 0) μ 0 src k).map J.num)),
+            ("indent", .bool (!src'.isEmpty && Spec.indentOkB D T (flag as 0) μ 0 src' src))]
   | "textaccepts" =>
     -- default dialect | src : text-level acceptor (Spec/TextLevel.lean) and the intrinsic kinds along the run
     match MState.init D (arg as 0) with
